@@ -646,5 +646,11 @@ def synthetic(rng, label, n_groups=6, exact_mode=True, with_uq=False, ranges='so
     return LibInfo(label, lib, matlib=None, exact_mode=exact_mode)
 
 
-def write_corpus_hint():
-    return 'corpus/<Cnn>/*.json are replayed first on every run'
+def floors(ctx, table):
+    """DESIGN Appendix B: a fall of the measured reach below the floor recorded when the check was built is a machinery
+    failure (generator rot), not a pass.  Only judged on an undisturbed run (no violation, nothing broken)."""
+    if ctx.violations or ctx.broken or ctx.disagreements:
+        return
+    low = ['%s=%d < %d' % (k, ctx.stats.get(k, 0), v) for k, v in table.items() if ctx.stats.get(k, 0) < v]
+    if low:
+        raise common.MachineryError('generator reach below its floor: ' + ', '.join(low))
